@@ -421,6 +421,99 @@ REGRESSION = [
 ]
 
 
+REGRESSION += [
+    # a facet number beyond the facets of the macrobody: CellConversionError
+    # inside the modelled stage (the model must answer Err)
+    ('facet-out-of-range', """facet out of range
+1 0 -1 2.9 imp:n=1
+2 0 1 imp:n=0
+
+1 so 9
+2 rpp -1 1 -2 2 -3 3
+
+""", []),
+    # a union none of whose operands is a pure intersection (helper planes
+    # branch of pot_to_t4_cell), a literal repeated inside one intersection
+    ('union-no-pure-intersection', """union without pure intersection
+1 0 (1 (2 : 3)) : (4 (5 : -3) 4 4) imp:n=1
+2 0 -1 -1 -4 imp:n=1
+4 0 3 (2 -2) : 5 imp:n=1
+3 0 6 imp:n=0
+
+1 px 1
+2 py 2
+3 pz 3
+4 px -4
+5 py 5
+6 so 20
+
+""", ['--skip-deduplication']),
+    # duplicates that only de-duplication reveals: an intersection "1 -7"
+    # (7 = copy of 1) becomes the main part of a union -> patently empty UNION
+    # volume neutralised with the helper planes; "8 : (1 -7 (5:6))" -> the only
+    # operand of the union is deleted -> ops = None
+    ('dedup-empty-unions', """empty volumes after de-duplication
+1 0 (1 -7 : 2 4) imp:n=1
+2 0 8 : (1 -7 (5 : 6)) imp:n=1
+3 0 9 imp:n=0
+
+1 px 1
+2 py 2
+4 pz 4
+5 py 5
+6 pz 6
+7 px 1
+8 so 3
+9 so 20
+
+""", []),
+    # TRCL by number and inline, a 1000*cell+surf reference, FILL with a
+    # transformation used twice (cell_transform cache hit), nested FILL,
+    # complement of a cell, LIKE n BUT with TRCL
+    ('trcl-fill-cache', """trcl fill cache
+1 0 -1 2 trcl=1 imp:n=1
+2 0 -3 fill=1 (1 0 0) imp:n=1
+3 0 -4 fill=1 (1 0 0) imp:n=1
+4 0 1001 -5 #1 imp:n=1
+5 like 4 but trcl=(0 0 2) imp:n=1
+10 0 -6 u=1 imp:n=1
+11 0 6 u=1 fill=2 imp:n=1
+20 0 -7 u=2 imp:n=1
+21 0 7 u=2 imp:n=1
+6 0 5 imp:n=0
+
+1 so 1
+2 kz 0 1 1
+3 s 4 0 0 1
+4 s -4 0 0 1
+5 so 20
+6 px 0
+7 py 0
+
+tr1 0 3 0
+""", []),
+    # a lattice (cell_transform with cache=False) filled with two universes
+    ('lattice-small', """small lattice
+1 0 -2 1 3 -4 lat=1 u=20 imp:n=1 fill=-1:1 0:0 0:0 1 2 1
+2 0 -5 fill=20 imp:n=1
+10 0 -6 u=1 imp:n=1
+11 0 6 u=1 imp:n=1
+20 0 -7 u=2 imp:n=1
+21 0 7 u=2 imp:n=1
+3 0 5 imp:n=0
+
+1 px -1.5
+2 px 1.5
+3 py -0.5
+4 py 0.5
+5 so 6
+6 so 0.3
+7 so 0.2
+
+""", []),
+]
+
+
 def regression_jobs():
     return [{'deck': text, 'args': list(args), 'tags': ['regression', name]}
             for name, text, args in REGRESSION]
